@@ -12,7 +12,9 @@ DST = ["vec", "ll", "hset", "bset", "arr"]
 def elem_types(rng):
     out = [G.P(p) for p in ELEMS]
     out += [("opt", G.P("u16")), ("tup", [G.P("u8"), G.P("str")]), ("res", G.P("u8"), G.P("str")),
-            ("wrap", "box", G.P("i32")), ("seq", "vec", 0, G.P("u16")), ("tup", [G.P("i8")])]
+            ("wrap", "box", G.P("i32")), ("seq", "vec", 0, G.P("u16")), ("tup", [G.P("i8")]),
+            # elements with an EMPTY encoding: the count is then not bounded by the bytes that follow
+            G.P("unit"), ("phantom",), ("wrap", "box", G.P("unit"))]
     return out
 
 
